@@ -298,12 +298,44 @@ func runPlaceCase(c *PlaceCase) {
 }
 
 // ---- Gallina emission ----
+// Repeated sub-terms (strings, paths, snapshot rows and lists) are emitted once as named definitions in
+// front of the case list: parsing byte lists dominated the cost of a cases file.
+type placeInterner struct {
+	names map[string]string
+	defs  []string
+}
+
+func (in *placeInterner) def(prefix, typ, term string) string {
+	k := prefix + "|" + term
+	if n, ok := in.names[k]; ok {
+		return n
+	}
+	n := fmt.Sprintf("%s%d", prefix, len(in.names))
+	in.names[k] = n
+	in.defs = append(in.defs, fmt.Sprintf("Definition %s : %s := %s.", n, typ, term))
+	return n
+}
+
+var placeIn = &placeInterner{names: map[string]string{}}
+
 func placeStr(s string) string {
+	if s == "" {
+		return "[]"
+	}
+	ascii := true
+	for i := 0; i < len(s); i++ {
+		if s[i] < 32 || s[i] > 126 {
+			ascii = false
+		}
+	}
+	if ascii {
+		return placeIn.def("s", "str", "bs \""+strings.ReplaceAll(s, "\"", "\"\"")+"\"%string")
+	}
 	items := make([]string, len(s))
 	for i := 0; i < len(s); i++ {
 		items[i] = fmt.Sprintf("%d", s[i])
 	}
-	return "[" + strings.Join(items, ";") + "]"
+	return placeIn.def("s", "str", "["+strings.Join(items, ";")+"]")
 }
 func placeStrs(l []string) string {
 	items := make([]string, len(l))
@@ -311,6 +343,9 @@ func placeStrs(l []string) string {
 		items[i] = placeStr(s)
 	}
 	return "[" + strings.Join(items, "; ") + "]"
+}
+func placePath(p string) string {
+	return placeIn.def("p", "list str", placeStrs(strings.Split(p, ".")))
 }
 func (q *PlaceQueue) coq() string {
 	ch := make([]string, len(q.Children))
@@ -329,9 +364,9 @@ func (r *PlaceRule) coq() string {
 func placeSnaps(l []PlaceSnap) string {
 	items := make([]string, len(l))
 	for i, s := range l {
-		items[i] = fmt.Sprintf("mkSnap %s %s %s %d %d %d", placeStrs(strings.Split(s.Path, ".")), coqBool(s.Leaf), coqBool(s.Managed), s.State, s.Tmpl, s.MaxApps)
+		items[i] = placeIn.def("q", "qsnap", fmt.Sprintf("mkSnap %s %s %s %d %d %d", placePath(s.Path), coqBool(s.Leaf), coqBool(s.Managed), s.State, s.Tmpl, s.MaxApps))
 	}
-	return coqList(items)
+	return placeIn.def("l", "list qsnap", coqList(items))
 }
 func (a *PlaceApp) coq() string {
 	tags := make([]string, len(a.Tags))
@@ -341,7 +376,7 @@ func (a *PlaceApp) coq() string {
 	var obs string
 	switch a.Out {
 	case "accepted":
-		obs = "OAcc " + placeStrs(strings.Split(a.Path, "."))
+		obs = "OAcc " + placePath(a.Path)
 	case "rejected":
 		obs = fmt.Sprintf("ORej %d", a.Class)
 	default:
@@ -395,10 +430,10 @@ func (c *PlaceCase) nontrivial() bool {
 }
 
 const placeRequires = `From YK Require Import Place.Str Place.Acl Place.Rules Place.Placement Oracles.PlaceCheck.
-From Coq Require Import List NArith. Import ListNotations. Open Scope N_scope.`
+From Coq Require Import List NArith String. Import ListNotations. Open Scope N_scope.`
 
 func placeEngine(o *Opts) {
-	rng := NewRng(o.Seed)
+	rng := NewRng(NewRng(o.Seed).Next()) // decorrelate neighbouring seeds (NewRng(s+1) is NewRng(s) advanced by one step)
 	st := NewStats("place", o.Seed, "generated worlds: queue hierarchy of depth <= 3 with submit/admin ACL strings on every level, child templates, draining/stopped queues x rule chain (provided/user/tag/fixed/test/unknown, nested parent rules, create flags, allow/deny filters with user/group lists and regular expressions) x 1-6 applications (users, groups, tags, requested names: unqualified, dotted, upper case, invalid parts, recovery queue, force-create); non-trivial = partition loaded, an application accepted and at least two distinct outcomes or two configured rules; distinct by hash of the case with observations")
 	var all PlaceCases
 	if o.Replay != "" {
@@ -425,6 +460,7 @@ func placeEngine(o *Opts) {
 	base := filepath.Join(o.OutDir, fmt.Sprintf("cases_place_%d", o.Shard))
 	var b strings.Builder
 	b.WriteString(placeRequires + "\n")
+	b.WriteString(strings.Join(placeIn.defs, "\n") + "\n")
 	b.WriteString("Definition cases : list pcase := [\n " + strings.Join(terms, ";\n ") + "\n].\n")
 	pinned := "false"
 	if o.Variant == "pinned" {
